@@ -1359,7 +1359,11 @@ func (h *Hashgraph) ProcessSigPool() error {
 				"index": bs.Index,
 				"msg":   err,
 			}).Error("Verifying Block signature")
-			return err
+			// A signature that cannot even be decoded will never become valid.
+			// Drop it instead of failing this pass and every later one (every
+			// sync, and Bootstrap after a restart) on the same item.
+			h.PendingSignatures.Remove(bs.Key())
+			continue
 		}
 		if !valid {
 			bytesBlock, _ := block.Marshal()
